@@ -11,7 +11,7 @@ runs of the real binary through harness/preload_io.c; exit status / signal, pres
 wall time are compared with the model.  (E) the same faults produced by the kernel: output pipes closed
 early, /dev/full, RLIMIT_FSIZE, a directory as standard input."""
 import bz2, errno, os, random, resource, signal, subprocess, time
-import vlib, campaign, inproc
+import vlib, campaign, inproc, crashtrace
 
 LEVEL = "fault_enumeration"
 ERRNO = {"EIO": errno.EIO, "ENOSPC": errno.ENOSPC, "EPIPE": errno.EPIPE, "EFBIG": errno.EFBIG}
@@ -115,11 +115,16 @@ def run(rep, tier, replay):
                     jobs.append((scen, ("write", e, ign), dict(env0, VERIF_IO_FAIL="write:%d:%d" % (k, no)), "write#%d fails with %s%s" % (k, e, ", signals ignored" if ign else "")))
     rep.cov["injection_points"] = len(jobs)
 
-    def go(job):
+    trdir = vlib.subdir("c21tr")
+
+    def go(ij):
+        i, job = ij
         scen, key, env, what = job
+        tr = os.path.join(trdir, "t%d.ndjson" % i)
         # standard input is a file: the number of read calls is the dry run's
-        return job, vlib.run([exe] + scen["args"], stdin_file=scen["file"], env=env, timeout=60, ignore_pipe=key[2])
-    results = campaign.parallel(go, jobs, par=12)
+        return job, vlib.run([exe] + scen["args"], stdin_file=scen["file"], env=dict(env, VERIF_TRACE=tr), timeout=60, ignore_pipe=key[2]), tr
+    results3 = campaign.parallel(go, list(enumerate(jobs)), par=12)
+    results = [(job, r) for job, r, tr in results3]
     for (scen, key, env, what), r in results:
         rep.add("evaluations")
         why = judge(exp, key, r, what)
@@ -129,6 +134,14 @@ def run(rep, tier, replay):
                                observed=dict(result=classify(r), stderr=r.err[:200].decode("latin1"), wall=r.wall)))
             if len(rep.violations) >= 8:
                 break
+    # ---- (V) the main thread's recorded path of every injection run against spec/TraceCrash.tla (sub-thread bailout before
+    # SIGUSR1, never SIGUSR2 after a failure, cleanup before the end, success only after Exit)
+    if len(rep.violations) < 8:
+        units = [crashtrace.unit("%s, %s" % (scen["name"], what), False, "fail", tr, classify(r), "present", "none")
+                 for (scen, key, env, what), r, tr in results3 if not r.timed_out]
+        for why, label in crashtrace.validate_units(rep, units, tag="tcrash21"):
+            rep.violation("recorded path is not a behaviour of TraceCrash.tla: %s [%s]" % (why, label),
+                          dict(kind="trace", cls="main-path", reason=why, injection=label))
     # ---------------------------------------------------------------- faults produced by the kernel
     big = rng.randbytes(1 << 20)
     bigc = bz2.compress(bytes(rng.choice(b"ab \n") for _ in range(3 << 20)), 1)
@@ -141,13 +154,14 @@ def run(rep, tier, replay):
             real.append((name, args, data, "fsize", ign, 4096))
         real.append((name, args, data, "stdin-dir", False, 0))
 
+    for name, args, data in {(j[0], tuple(j[1]), j[2]) for j in real}:
+        with open(os.path.join(vlib.subdir("c21"), "in_%s" % name), "wb") as f:
+            f.write(data)
+
     def go_real(job):
         name, args, data, kind, ign, arg = job
         d = vlib.subdir("c21")
-        src = os.path.join(d, "in_%s" % name)
-        if not os.path.exists(src):
-            with open(src, "wb") as f:
-                f.write(data)
+        src = os.path.join(d, "in_%s" % name)             # (written before the jobs start)
         t0 = time.time()
         if kind == "pipe":
             with open(src, "rb") as fin:
